@@ -260,7 +260,7 @@ b("C13-b3", "C13", "dulwich/graph.py", "        lcas = _remove_redundant(lookup_
 b("C14-b6", "C14", "dulwich/commit_graph.py", "GRAPH_EXTRA_EDGES_NEEDED | (len(extra_edge_data) // 4)", "GRAPH_EXTRA_EDGES_NEEDED | len(extra_edge_data)", "R14.3")
 b("C14-b7", "C14", "dulwich/commit_graph.py", "                    if n == len(extra_parents) - 1:\n", "                    if n == len(entry.parents) - 1:\n", "R14.3")
 b("C13-b4", "C13", "dulwich/commit_graph.py", "                    if n == len(extra_parents) - 1:\n", "                    if n == len(entry.parents) - 1:\n", "R13.3")
-b("C16-b6", "C16", REFS, "        probe_ref = Ref(os.path.dirname(realname))\n", "        probe_ref = Ref(os.path.dirname(name))\n", "R16.7")
+b("C16-b6", "C16", REFS, "        filename = self.refpath(realname)\n\n        self._check_no_packed_conflict(realname, filename)\n", "        filename = self.refpath(realname)\n\n        self._check_no_packed_conflict(name, filename)\n", "R16.7")
 b("C17-b5", "C17", IDX, "    common = 0\n    while (\n        common < len(safe_prefix)\n        and common < len(components)\n        and safe_prefix[common] == components[common]\n    ):\n        common += 1\n",
   "    common = sum(1 for seen, part in zip(safe_prefix, components) if seen == part)\n", "R17.6")
 n("C17-n2", "C17", IDX, "    common = 0\n    while (\n        common < len(safe_prefix)\n        and common < len(components)\n        and safe_prefix[common] == components[common]\n    ):\n        common += 1\n",
@@ -311,3 +311,8 @@ n("C09-n2", "C09", REPO_PY, "        for new_shallow, unshallow in pending_shall
   "        refs = self.get_refs()\n        for new_shallow, unshallow in pending_shallow:\n            apply_shallow(new_shallow, unshallow)\n        return refs\n")
 n("C09-n3", "C09", STASH, "        if old_stash is not None:\n            ok = self._repo.refs.set_if_equals(\n                self._ref,\n                old_stash,\n                cid,\n                message=b\"commit: \" + message,\n                committer=committer,\n            )\n        else:\n            ok = self._repo.refs.add_if_new(\n                self._ref,\n                cid,\n                message=b\"commit: \" + message,\n                committer=committer,\n            )\n",
   "        reflog_message = b\"commit: \" + message\n        if old_stash is None:\n            ok = self._repo.refs.add_if_new(\n                self._ref,\n                cid,\n                message=reflog_message,\n                committer=committer,\n            )\n        else:\n            ok = self._repo.refs.set_if_equals(\n                self._ref,\n                old_stash,\n                cid,\n                message=reflog_message,\n                committer=committer,\n            )\n")
+b("C16-b10", "C16", REFS, "        self._check_refname(realname)\n        filename = self.refpath(realname)\n        self._check_no_packed_conflict(realname, filename)\n", "        self._check_refname(realname)\n        filename = self.refpath(realname)\n", "R16.15")
+b("C16-b11", "C16", REFS, "        prefix = refname + b\"/\"\n        for packed_name in packed_refs:\n            if packed_name.startswith(prefix):\n                raise IsADirectoryError(filename)\n", "", "R16.15")
+b("C16-b12", "C16", REFS, "        filename = self.refpath(name)\n        self._check_no_packed_conflict(name, filename)\n", "        filename = self.refpath(name)\n", "R16.15")
+n("C16-n9", "C16", REFS, "        prefix = refname + b\"/\"\n        for packed_name in packed_refs:\n            if packed_name.startswith(prefix):\n                raise IsADirectoryError(filename)\n",
+  "        prefix = refname + b\"/\"\n        if any(packed_name.startswith(prefix) for packed_name in packed_refs):\n            raise IsADirectoryError(filename)\n")
